@@ -98,6 +98,21 @@ class GuardrailMetadata:
     """ List of guardrail settings """
 
 
+def has_guardrail_config(fh: BinaryIO, beacon_config_offset: int, xorkey: bytes = b"\x8a") -> bool:
+    """Return ``True`` if the beacon config patch area at `beacon_config_offset` is followed by a guardrail config.
+
+    Side effects: file handle position due to seeking
+    """
+    xorred_guardconfig_starts = [xor(x, xorkey) for x in GUARD_CONFIG_STARTS]
+    size = len(xorred_guardconfig_starts[0])
+    fh.seek(beacon_config_offset + BEACON_CONFIG_PATCH_SIZE - size)
+    block = fh.read(size * 2)
+    if len(block) != size * 2:
+        return False
+    a, b = block[:size], block[size:]
+    return xor(a[::-1], b) in xorred_guardconfig_starts
+
+
 def iter_guardrail_configs(fh: BinaryIO, xorkey: bytes = b"\x8a") -> Iterator[GuardrailMetadata]:
     xorred_guardconfig_starts = [xor(x, xorkey) for x in GUARD_CONFIG_STARTS]
     size = len(xorred_guardconfig_starts[0])
